@@ -610,6 +610,8 @@ def c01_r3(ctx):
                         return True
                     if o[0][0] == "agg" and len(o) == 1 and o[0][4] == "std::option::Option::None":
                         return True
+                    if is_call(o, "std::ops::FromResidual::from_residual") and len(o) == 1:
+                        return True         # the None of an `opt?` that found nothing
                     if o[0][0] == "agg" and len(o) == 1 and o[0][4] == "std::option::Option::Some":
                         rv2 = g.blocks[o[0][2]]["stmts"][o[0][3]]["rv"]
                         po = g.origins_of_operand(rv2["ops"][0])
